@@ -291,6 +291,12 @@ def _identity(a, b, interp=None):
         if a.v is None or b.v is None or isinstance(a.v, bool) or \
                 isinstance(b.v, bool):
             return a.v is b.v
+        if a is not b and a == b and isinstance(a.v, (str, bytes, float,
+                                                      tuple)):
+            # equal values held by distinct objects: the language does not
+            # say whether they are identical (interning is an accident of
+            # how each one was made) - both answers are explored
+            return None
         return a == b
     heap = (Obj, ListV, DictV, SetV, FuncRef, ClassRef, AbsFunc)
     if isinstance(a, heap) or isinstance(b, heap):
